@@ -75,6 +75,37 @@ for an un-routed request with a middleware container) -/
 example : Clean theCfg (recycle (pushData (fresh 0 ⟨⟨"GET", "/nope", "11", none, [("x-t", "5")]⟩, none, []⟩) (some 105))) :=
   ⟨rfl, rfl, rfl⟩
 
+/-- **C11_reinit_path_any_target**: the routing state of a re-initialised allocation (`Url.uri`,
+`Url.path()`, `skip`, `segments`) is that of `Path::new(Url::new(uri))` for the new request's
+target — for EVERY target form (origin-form, `*`, authority-form, anything): there is no
+hypothesis on the URI, in particular none on a leading `/`, and none on the allocation. -/
+theorem C11_reinit_path_any_target (i : Inner) (r : Req) :
+    (reinit i r).path = PathSt.new r.head.uri ∧
+    (reinit i r).resourcePath = [] ∧ (reinit i r).matched = false := ⟨rfl, rfl, rfl⟩
+
+/-- the seeded variant C11-r2-2 of `AppInitService::call`: the URL of a recycled allocation is
+refreshed only when the target's path starts with `/` -/
+def reinitIfOrigin (i : Inner) (r : Req) : Inner :=
+  let i := if (uriPath r.head.uri).head? == some '/' then { i with path := i.path.update r.head.uri } else i
+  let i := { i with path := i.path.reset }
+  let i := { i with resourcePath := [] }
+  let i := { i with matched := false }
+  let i := { i with head := r.head }
+  let i := { i with connData := r.connData }
+  { i with extensions := r.reqData }
+
+/-- witness: with the conditional refresh, `OPTIONS *` (and `CONNECT h:80`) served from the clean
+allocation of an earlier `GET /u/7` keeps routing on `/u/7`, while a fresh allocation has the
+real target's path -/
+theorem witness_conditional_url_update_leaks :
+    let old := recycle (fresh 0 ⟨⟨"GET", "/u/7", "11", none, []⟩, none, []⟩)
+    Clean theCfg old ∧
+    (reinitIfOrigin old ⟨⟨"OPTIONS", "*", "11", none, []⟩, none, []⟩).path.path = "/u/7".toList ∧
+    (fresh 0 ⟨⟨"OPTIONS", "*", "11", none, []⟩, none, []⟩).path.path = ['*'] ∧
+    (reinitIfOrigin old ⟨⟨"CONNECT", "h:80", "11", none, []⟩, none, []⟩).path.path = "/u/7".toList ∧
+    (fresh 0 ⟨⟨"CONNECT", "h:80", "11", none, []⟩, none, []⟩).path.path = [] := by
+  refine ⟨⟨rfl, rfl, rfl⟩, by decide, by decide, by decide, by decide⟩
+
 /-! ## Invariant over all histories -/
 
 /-- **C11_pool_inv**: after ANY history of operations (requests with arbitrary handler effects,
